@@ -49,6 +49,7 @@ pub fn entrait_for_single_fn(attr: &EntraitFnAttr, input_fn: InputFn) -> syn::Re
         trait_indirection: generics::TraitIndirection::Plain,
         trait_dependency_mode: &trait_dependency_mode,
         sub_attributes: &sub_attributes,
+        unsafety: None,
     }
     .gen_trait_def(
         &attr.trait_visibility,
@@ -125,6 +126,7 @@ pub fn entrait_for_mod(attr: &EntraitFnAttr, input_mod: InputMod) -> syn::Result
         trait_indirection: generics::TraitIndirection::Plain,
         trait_dependency_mode: &trait_dependency_mode,
         sub_attributes: &sub_attributes,
+        unsafety: None,
     }
     .gen_trait_def(
         &attr.trait_visibility,
